@@ -221,7 +221,21 @@ def o_corr_large(spec, r, extra):
     return abs(r['ret'] - extra['exp']) > 1e-9, f"corr(n={spec[2][1]}, {['pearson', 'spearman', 'kendall'][spec[3][1]]}) = {r['ret']!r}, definition gives {extra['exp']!r}"
 ORACLES['corr_large'] = o_corr_large
 
-JOBFNS = {'rank_large': job_rank_large, 'sort': job_sort, 'median': job_median, 'medflt': job_medflt, 'rank': job_rank, 'pearson': job_pearson}
+def job_median_large(res, ns):
+    """ground obligations at lengths where library sorts switch algorithm (introsort threshold 16, selection shortcuts): median of pseudo-random, reversed, repeated-value and sorted arrays through the interpreted IR equals the middle order statistic"""
+    mod, so = load(HARNESS)
+    for n in ns:
+        seq = [((i * 7919 + 13) % 1009) / 16.0 - 30.0 for i in range(n)]
+        for nm, xv in (('pseudo-random', seq), ('reversed', sorted(seq, reverse=True)), ('repeated values', [float((i * 5) % 7) for i in range(n)]), ('sorted', sorted(seq)), ('organ pipe', sorted(seq)[::2] + sorted(seq, reverse=True)[n % 2::2])):
+            m = Machine(mod, max_steps=200_000_000); xp = m.alloc_doubles(xv, 'x')
+            try: r = m.call('@h_median', [xp, n])
+            except (UB, Throw, Budget) as e: res.absorb(m); res.inc(f'median n={n} {nm}: {type(e).__name__} {str(e)[:100]}'); continue
+            res.absorb(m); exp = py_median(xv); ok = (r == exp) and not m.ub_found
+            sol = z3.Solver(); sol.add(z3.Not(z3.BoolVal(bool(ok))))
+            if timed_check(sol, res) == z3.unsat: res.ob(True, 'ground', f'median of {n} {nm} values == {exp!r}')
+            else: confirm(res, PID, HARNESS, 'h_median', [('pf64', xv), ('i32', n)], 'f64', 'median', ORACLES, f'median:large-n:{"even" if n % 2 == 0 else "odd"}', f'median of {n} {nm} values: got {r!r}, expected {exp!r}')
+
+JOBFNS = {'median_large': job_median_large, 'rank_large': job_rank_large, 'sort': job_sort, 'median': job_median, 'medflt': job_medflt, 'rank': job_rank, 'pearson': job_pearson}
 
 def selftest(st):
     mod, so = load(HARNESS); calls = []
@@ -255,6 +269,7 @@ def main(tier, seed):
         for n in ((2, 3, 4) if q else (2, 3, 4, 5)):
             for f in range(n): jobs.append((f'corr type={typ} n={n} r0={f}', 'rank', dict(n=n, typ=typ, first=f), 3000))
     for n, typ in (((1861, 1), (300, 2)) if q else ((1861, 1), (2048, 1), (4099, 1), (300, 2), (1000, 2))): jobs.append((f'rank correlation large n={n} type={typ}', 'rank_large', dict(n=n, typ=typ), 1800))
+    for ns in (((16, 17, 33, 34), (64, 101)) if q else ((16, 17, 18, 31, 32), (33, 34, 35, 40), (64, 65, 100, 101), (256, 257, 1000, 1001))): jobs.append((f'median large n={ns}', 'median_large', dict(ns=list(ns)), 900))
     for n in ((2, 3, 4) if q else (2, 3, 4, 5, 6)): jobs.append((f'pearson n={n}', 'pearson', dict(n=n), 600))
     jobs.sort(key=lambda j: -(j[2].get('n', 0) + j[2].get('nx', 0) + j[2].get('order', 0)))
     return run_property(PID, tier, HARNESS, jobs, JOBFNS,
